@@ -583,8 +583,10 @@ class Machine:
         if not np.array_equal(N, psd_before):
             F.add('C07.input_mutated', f'op {k}: correctdXdtEuler modified the distribution it was given', where='correctdXdtEuler')
         Nnew = N + dc * dt
-        # classes obeying the step limit on both faces never go negative
-        for i in range(nb):
+        # classes obeying the step limit on both faces never go negative.  This follows from the upwind formula only when the
+        # flux was computed from the distribution it is corrected against (Euler pattern); in the RK4 calling pattern the
+        # last-stage flux comes from a stage state, so only the per-face limit (checked above) is implied.
+        for i in (range(nb) if not op['rk4'] else ()):
             if N[i] > 0 and abs(g[i]) * dt <= 0.4 * (bounds[i + 1] - bounds[i]) * (1 + 1e-12) and abs(g[i + 1]) * dt <= 0.4 * (bounds[i + 1] - bounds[i]) * (1 + 1e-12):
                 self.cnt['classes_obeying_limit'] += 1
                 if Nnew[i] < -1e-12 * N[i]:
